@@ -52,7 +52,7 @@ fn check(id: &str, tier: &str) -> i32 {
             }
             rep.set(
                 "rule",
-                json!("for every input: no panic; outcome in {message, need-more, error}; buffer remainder is a suffix of the input; need-more consumes 0 bytes; never more bytes consumed than the declared frame; a message is yielded only from a complete frame with a legal length and consumes exactly 1+len (regular) / len (startup) bytes; a complete well-formed frame decodes to the message it encodes (reference decoder written from the PostgreSQL v3 framing rules); decode(encode(m)++suffix) = (m, suffix)"),
+                json!("cases: every byte string of length <= max_len over the 13-symbol alphabet (shortest first, lexicographic), each through decode and decode_startup, plus the full products type x declared-length x payload x trailing bytes (regular), declared-length x body x trailing (startup) and well-formed message x suffix (round trip); a case is non-trivial/distinct by its observation: distinct_nontrivial = number of distinct (decoder, outcome class, bytes consumed) triples plus distinct decoded messages seen in this run. oracle, for every input: no panic; outcome in {message, need-more, error}; buffer remainder is a suffix of the input; need-more consumes 0 bytes; never more bytes consumed than the declared frame; a message is yielded only from a complete frame with a legal length and consumes exactly 1+len (regular) / len (startup) bytes; a complete well-formed frame decodes to the message it encodes (reference decoder written from the PostgreSQL v3 framing rules); decode(encode(m)++suffix) = (m, suffix)"),
             );
             rep.set(
                 "bounds",
@@ -66,7 +66,7 @@ fn check(id: &str, tier: &str) -> i32 {
             let sp = c28::C28::new(tier);
             rep.set(
                 "rule",
-                json!("for every message: encode does not panic; the bytes are exactly one frame (type byte, i32 length = number of bytes after the type byte >= 4); an independent parser written from the protocol documentation consumes the body exactly and recovers fields equal to the inputs (error/notice fields compared as sets)"),
+                json!("cases: every BackendMessage variant x the full product of its field menus (strings by length class incl. 255/256/64KiB and non-ASCII, 0..3 fields/values, NULL/empty/binary values, all transaction statuses, error-field maps of 0..3 entries); distinct_nontrivial = number of distinct encoded byte strings produced (128-bit hash) in this run. oracle, for every message: encode does not panic; the bytes are exactly one frame (type byte, i32 length = number of bytes after the type byte >= 4); an independent parser written from the protocol documentation consumes the body exactly and recovers fields equal to the inputs (error/notice fields compared as sets)"),
             );
             rep.assume("strings carry no interior NUL (a C-string cannot; SQL text cannot produce one); at most 32767 columns per row");
             iso::drive(&sp, &mut rep, budget);
@@ -78,7 +78,7 @@ fn check(id: &str, tier: &str) -> i32 {
             let sp = c29::C29::new(tier);
             rep.set(
                 "rule",
-                json!("verify_cleartext(u,p) accepts <=> u is stored with an Argon2 secret created from exactly p; verify_md5(u,r,salt) accepts <=> u is stored as {MD5}pw and r == \"md5\"+hex(md5(hex(md5(pw||u))||salt)) (computed with the md-5 crate independently of compute_md5_password, cross-checked against hashlib vectors); no panic"),
+                json!("cases: full product stores (user x password x storage kind, each with a decoy user) x presented user (same, decoy, unknown, case-flipped, trailing space) x response menu (correct, every single-character edit of it, prefix variants, other salts/users answers, ...) x salts; distinct_nontrivial = number of distinct (mode, stored kind of the presented user, user relation, response class, observed verdict) tuples seen in this run. oracle: verify_cleartext(u,p) accepts <=> u is stored with an Argon2 secret created from exactly p; verify_md5(u,r,salt) accepts <=> u is stored as {MD5}pw and r == \"md5\"+hex(md5(hex(md5(pw||u))||salt)) (computed with the md-5 crate independently of compute_md5_password, cross-checked against hashlib vectors); no panic"),
             );
             rep.set("argon2_verifications_planned", json!(sp.argon2_verifications()));
             rep.assume("Argon2 salts are random (OsRng): only the accept/reject verdict is observed");
